@@ -28,14 +28,18 @@ def src_hash():
 def binary_cases():
     """(label, builder) for the argument-validity cases V of op(x, n)."""
     out = []
+    forms = {True: ["live"], False: ["removed", "removed(id as reported by get_node_id)"]}
     for alias in (True, False):
         if alias:
             for live in (True, False):
-                out.append(("x==n %s" % ("live" if live else "removed"), ("alias", live)))
+                for f in forms[live]:
+                    out.append(("x==n %s" % f, ("alias", live, f)))
         else:
             for lx in (True, False):
                 for ln in (True, False):
-                    out.append(("x %s, n %s" % ("live" if lx else "removed", "live" if ln else "removed"), ("distinct", lx, ln)))
+                    for fx in forms[lx]:
+                        for fn in forms[ln]:
+                            out.append(("x %s, n %s" % (fx, fn), ("distinct", lx, ln, fx, fn)))
     return out
 
 
@@ -49,12 +53,20 @@ def run_entry(profile, features, entry, repo=None):
         key = NID + entry
         for label, case in binary_cases():
             st = State()
+            forms = {}
             if case[0] == "alias":
                 x = st.new_node(case[1], "arg:self")
                 n = x
+                if "reported" in case[2]:
+                    forms[x] = "reported"
             else:
                 x = st.new_node(case[1], "arg:self")
                 n = st.new_node(case[2], "arg:new")
+                if "reported" in case[3]:
+                    forms[x] = "reported"
+                if "reported" in case[4]:
+                    forms[n] = "reported"
+            st.meta["removed_id_form"] = forms
             st.meta["args"] = (x, n)
             st.meta["case"] = label
             I.push_call(st, key, [driver.arg_id(st, x), driver.arg_id(st, n), driver.arena_ref()], None, None)
@@ -83,11 +95,12 @@ def run_entry(profile, features, entry, repo=None):
             I.push_call(st, NID + entry, [driver.arg_id(st, x), driver.arena_ref()], None, None)
             I.explore([st], lambda t, e=entry: records.append(unary_record(I, e, t)))
     elif entry == "append_value":
-        for live in (True, False):
+        for live, form in ((True, "live"), (False, "removed"), (False, "removed(id as reported by get_node_id)")):
             st = State()
             x = st.new_node(live, "arg:self")
             st.meta["args"] = (x,)
-            st.meta["case"] = "x live" if live else "x removed"
+            st.meta["case"] = "x " + form
+            st.meta["removed_id_form"] = {x: "reported"} if "reported" in form else {}
             I.push_call(st, NID + entry, [driver.arg_id(st, x), VOpaque("payload", "new"), driver.arena_ref()], None, None)
             I.explore([st], lambda t, e=entry: records.append(unary_record(I, e, t)))
     elif entry == "new_node":
